@@ -65,7 +65,9 @@ Broadcast == /\ E.ev = "broadcast" /\ ~inCall
              /\ ToSet(E.result_nodes) = {NodeName(i) : i \in Addressed(E)}
              /\ Len(E.result_nodes) = Cardinality(Addressed(E))               \* exactly one result per addressed node
              /\ \A i \in 1..Len(E.node_tags) : (E.requests_seen[i] >= 1) <=> (i \in Addressed(E))
-             /\ E.all_ok
+             \* every addressed node answered, except the ones scripted to stay silent: those have a (failed) result all the same
+             /\ ToSet(E.ok_nodes) = {NodeName(i) : i \in Addressed(E) \ ToSet(E.silent)}
+             /\ (E.all_ok <=> (Addressed(E) \cap ToSet(E.silent) = {}))
              /\ UNCHANGED <<max, inCall, phase, n, lastRes, healthyDone, healthyOk>>
 
 Step == l <= Len(Rec) /\ l' = l + 1 /\ (Reset \/ CallStart \/ Attempt \/ CallEnd \/ Broadcast)
